@@ -135,7 +135,7 @@ def main():
         return 0
 
     t0 = time.monotonic()
-    outdir = os.path.join(VERIF, 'out', cid)
+    outdir = os.path.join(common.OUT_ROOT, cid)
     shutil.rmtree(outdir, ignore_errors=True)
     os.makedirs(os.path.join(outdir, 'replay'), exist_ok=True)
     os.makedirs(os.path.join(VERIF, 'evidence'), exist_ok=True)
